@@ -36,7 +36,7 @@ fn poll_pending(p: &mut Pending) -> Poll<Token> {
 /// and drops the token.
 fn run_to_completion(t: Token) -> Result<(), String> {
     let pipe = Pipe::new(Rng::new(1), Behaviour::ideal());
-    pipe.lock().unwrap().peer_close();
+    pipe.lock().unwrap_or_else(std::sync::PoisonError::into_inner).peer_close();
     let log = Arc::new(std::sync::Mutex::new(crate::handler::HLog::default()));
     let h = crate::handler::make_handler(vec![crate::handler::Script { ops: vec![], propagate: true, status: fastcgi_server::ExitStatus::SUCCESS }], log);
     let mut fut = Box::pin(t.run(Reader(pipe.clone()), Writer(pipe), h));
@@ -231,7 +231,7 @@ fn history(c: &mut Case) {
                 let mut r = running.remove(k);
                 if c.rng.chance(1, 2) {
                     trace.push(format!("peer closes connection of run #{k}; run future polled to completion"));
-                    r.pipe.lock().unwrap().peer_close();
+                    r.pipe.lock().unwrap_or_else(std::sync::PoisonError::into_inner).peer_close();
                     let mut done = false;
                     for _ in 0..4 {
                         if poll_running(&mut r) {
